@@ -7,7 +7,7 @@ import ast
 
 from sa.model import AnalysisError, access_path, unparse
 
-from .shared import calls_in, cond_implies, deref, emptiness_atom, key, loc, membership_atom, reaching_defs, slice_attrs
+from .shared import calls_in, cond_implies, deref, emptiness_atom, key, loc, membership_atom, reaching_defs, reaching_def_nodes, slice_attrs
 
 
 def lookup_func(ctx):
@@ -235,9 +235,90 @@ def r5(ctx, R):
     linebase.check(ctx, R, "C05.R5", funcs, "line bases on the definition path: request line + 1 into the scope look-ups, entity line - 1 into the answer", floor=3)
 
 
+def _slice_values(ctx, f, e, at, depth=0, seen=None):
+    """Expressions in the backward slice of e at statement `at`: e itself, the
+    reaching definitions of its locals, and - for a field of `self` - every
+    value any method of the class (or its bases) stores into that field."""
+    seen = seen if seen is not None else set()
+    out = [e]
+    if depth > 5:
+        return out
+    for x in ast.walk(e):
+        if isinstance(x, ast.Name) and isinstance(x.ctx, ast.Load):
+            for d in reaching_def_nodes(ctx, f, at, x.id):
+                if d == "param" or id(d) in seen:
+                    continue
+                seen.add(id(d))
+                val = d.iter if isinstance(d, ast.For) else getattr(d, "value", None)
+                if val is not None:
+                    out += _slice_values(ctx, f, val, d, depth + 1, seen)
+        elif isinstance(x, ast.Attribute) and isinstance(x.value, ast.Name) and x.value.id == "self" and f.cls:
+            for cq in ctx.m.mro(f.cls):
+                fld = ctx.m.classes[cq].fields.get(x.attr)
+                if not fld:
+                    continue
+                for fq, val, st in fld.assigns:
+                    if val is None or id(st) in seen:
+                        continue
+                    seen.add(id(st))
+                    g = ctx.m.funcs.get(fq)
+                    if g is not None:
+                        out += _slice_values(ctx, g, val, st, depth + 1, seen)
+    return out
+
+
+def r6(ctx, R):
+    """Type-spec names are not component names.  `type(t) :: x`, `procedure(p) ::
+    b` and a type-bound `procedure :: b` inside `type :: s ... end type` name
+    entities of the scope that *contains* the type definition; the members of s
+    (own and inherited) form a separate name space."""
+    from .scopekind import ScopeKinds
+
+    R.rule("C05.R6", "a name taken from a declaration's type-spec is looked up starting outside the enclosing derived type, never among that type's members", floor=2, confirmed=2)
+    lf = lookup_func(ctx)
+    obj = ctx.m.cname.get("FortranObj")
+    cone = set(ctx.m.cone(obj)) if obj else set()
+    if not cone:
+        raise AnalysisError("FortranObj class cone not found")
+    n = 0
+    for f in ctx.m.funcs.values():
+        if f.cls not in cone:
+            continue
+        own = [c for c in calls_in(f.node) if ctx.m.enclosing_func(c) is f and isinstance(c.func, ast.Name) and lf.qual in ctx.r.resolve_call(f, c)[1] and len(c.args) >= 2]
+        if not own:
+            continue
+        ids = {id(c) for c in own}
+        SK = None
+        for c in own:
+            st = ctx.m.enclosing_stmt(c)
+            vals = _slice_values(ctx, f, c.args[1], st)
+            spec = any(isinstance(v, ast.Call) and isinstance(v.func, ast.Name) and v.func.id == "get_paren_substring" for e in vals for v in ast.walk(e))
+            if not spec:
+                continue
+            if SK is None:
+                SK = ScopeKinds(f.node, want=lambda call: id(call) in ids)
+            rec = [r_ for r_ in SK.calls if r_[0] is c]
+            if not rec:
+                R.undecided("C05.R6", f.short, key(f, st)[:100], loc(f, c), "call not reached by the scope-kind walk")
+                continue
+            n += 1
+            _, kinds, env = rec[0]
+            sp = env.canon(access_path(c.args[0]) or "?")
+            roots = {access_path(v) or "" for v in _slice_values(ctx, f, c.args[0], st)}
+            if not sp.startswith("self.parent") and not any(r_.startswith("self.parent") for r_ in roots):
+                R.undecided("C05.R6", f.short, key(f, st)[:100], loc(f, c), f"search starts at `{sp}`, not at the entity's own parent chain")
+            elif kinds[0] == "N":
+                R.ok("C05.R6", f.short, key(f, st)[:100], loc(f, c), f"`{unparse(c.args[0])}` is not a derived-type definition here (class test / hop to its parent on every path)")
+            else:
+                R.violation("C05.R6", f.short, key(f, st)[:100], loc(f, c), f"`{unparse(c.args[1])}` comes from the declaration's type-spec, and the search starts at `{unparse(c.args[0])}`, which may be the enclosing derived type: for a component or binding the name is then looked up among the type's own and inherited members first, so `type(vec) :: vec`, a binding named like its procedure, or a component named like the type of a sibling resolves to the member instead of the entity in the host scope")
+    if n == 0:
+        raise AnalysisError("C05.R6: no look-up of a type-spec name from an entity's parent found")
+
+
 def run(ctx, R):
     r1(ctx, R)
     r2(ctx, R)
     r3(ctx, R)
     r4(ctx, R)
     r5(ctx, R)
+    r6(ctx, R)
